@@ -11,6 +11,10 @@ open RV.C04
 #print axioms pushdown_filter
 #print axioms pushdown_extend
 #print axioms pushdown_values
+#print axioms pushdown_project
+#print axioms pushdown_minus
+#print axioms pushdown_graph_unbound
+#print axioms push_graph_bound
 #print axioms spec_bounds
 #print axioms bgp_perm
 #print axioms joinBag_comm
